@@ -504,7 +504,12 @@ pub fn op_gcenum(req: &J) -> J {
     let mut counters = (0u64, 0u64);
     let mut samples = Vec::new();
     let mut nontrivial = 0u64;
+    let parts = req.get("parts").and_then(J::as_u64).unwrap_or(1).max(1);
+    let part = req.get("part").and_then(J::as_u64).unwrap_or(0);
     for ecode in 0..total_edges {
+        if ecode % parts != part {
+            continue;
+        }
         let mut edges = vec![vec![0u8; n]; n];
         let mut c = ecode;
         for i in 0..n {
